@@ -181,6 +181,23 @@ def r4_outdir(run, F):
                 detail = str(names)
                 ok = names == ["set_extension:pn.ll", "create_dir_all", "write:ir"]
     run.ob("R4-OUT-DIR", "per-module .pn.ll", ok, F.where(c), "under --out-dir every module's IR is written to <out_dir>/<module>.pn.ll: %s" % detail)
+    # the file name is injective in the module path: out_dir + the whole path as given + ".pn.ll" (nothing dropped or rewritten)
+    lets_o = [n for n in walk(c["hir"]) if n.get("k") == "Let" and n["pat"].get("name") == "outputpath" and "init" in n]
+    run.require(len(lets_o) == 1, "compile_to_ir_using_alpha: `let outputpath` not found")
+    init = lets_o[0]["init"]
+    used = sorted(set((hirq.callee(x) or hirq.callee_decl(x) or x.get("name") or "?").split("::")[-1] for x in hirq.calls(init)))
+    allowed = {"to_path_buf", "push", "clone", "set_extension", "join", "with_extension", "as_path", "as_ref"}
+    extra = [u for u in used if u not in allowed]
+    pushes = [x for x in hirq.calls(init) if (x.get("name") in ("push", "join"))]
+    whole = False
+    for x in pushes:
+        a = hirq.unwrap_trivial(x["a"][0]) if x.get("a") else {}
+        names = [y.get("res") for y in walk(a) if y.get("k") == "Path" and y.get("rk") == "Local"]
+        inner = [(hirq.callee(y) or y.get("name") or "").split("::")[-1] for y in hirq.calls(a)]
+        whole = whole or (names == ["filepath"] and all(i in ("clone", "as_path", "as_ref") for i in inner))
+    run.ob("R4-OUT-DIR", "file name injective in the module path", whole and not extra, F.where(c, init),
+           "the IR of module P goes to <out_dir>/P.pn.ll with P the whole path as given; dropping or rewriting components lets two modules "
+           "share one file (the later silently overwrites the earlier): path operations %s, not reviewed: %s" % (used, extra))
     # `ir` is this iteration's generate_ir()
     lets = [n for n in walk(c["hir"]) if n.get("k") == "Let" and n["pat"].get("name") == "ir"]
     ok2 = len(lets) == 1 and any(hirq.callee(x) == "alpha::Compiler::generate_ir" for x in hirq.calls(lets[0]["init"]))
